@@ -142,10 +142,10 @@ void harness(void) {
 void harness(void) {
   ir_init_globals();
   for (unsigned i = 0; i < sizeof(VEC_BASE) / sizeof(VEC_BASE[0]); i++) for (unsigned j = 0; j < sizeof(VEC_DELTA) / sizeof(VEC_DELTA[0]); j++)
-    printf("VEC time %llx %llx -> %llx\n", VEC_BASE[i], VEC_DELTA[j], dispatch_time(VEC_BASE[i], VEC_DELTA[j]));
+    __builtin_printf("VEC time %llx %llx -> %llx\n", VEC_BASE[i], VEC_DELTA[j], dispatch_time(VEC_BASE[i], VEC_DELTA[j]));
   for (unsigned i = 0; i < sizeof(VEC_SEC) / sizeof(VEC_SEC[0]); i++) for (unsigned j = 0; j < sizeof(VEC_DELTA) / sizeof(VEC_DELTA[0]); j++) {
     static u64 ts; if (!ts) ts = ir_bump(16);
     IR_ST64(ts, VEC_SEC[i]); IR_ST64(ts + 8, VEC_NSEC[i]);
-    printf("VEC wall %llx %llx %llx -> %llx\n", VEC_SEC[i], VEC_NSEC[i], VEC_DELTA[j], dispatch_walltime(ts, VEC_DELTA[j])); }
+    __builtin_printf("VEC wall %llx %llx %llx -> %llx\n", VEC_SEC[i], VEC_NSEC[i], VEC_DELTA[j], dispatch_walltime(ts, VEC_DELTA[j])); }
 }
 #endif
